@@ -4,7 +4,10 @@ use std::collections::HashMap;
 use prqlc_parser::verif_hash::HashMap;
 use std::iter::zip;
 use std::path::PathBuf;
+#[cfg(not(prqlc_verif))]
 use std::sync::OnceLock;
+#[cfg(prqlc_verif)]
+use crate::verif_sync::OnceLock;
 
 use itertools::Itertools;
 
